@@ -70,7 +70,16 @@ import keyword as _keyword
 import math as _math
 import string as _string
 
-PURE_MODULES = {'string': _string, 'itertools': _itertools, 'keyword': _keyword, 'math': _math}
+import base64 as _base64
+import binascii as _binascii
+import hashlib as _hashlib
+import struct as _struct
+import zlib as _zlib
+
+# modules of the standard library whose functions are pure (value in, value out): called for real on determined arguments
+PURE_MODULES = {'string': _string, 'itertools': _itertools, 'keyword': _keyword, 'math': _math, 'hashlib': _hashlib, 'binascii': _binascii, 'base64': _base64,
+                'zlib': _zlib, 'struct': _struct}
+PURE_VALUE_MODULES = ('_hashlib', '_sha1', '_sha2', '_sha3', '_md5', '_blake2', 'hashlib', 'zlib', '_struct')     # objects those functions return
 
 
 def _safe_repr(v):
@@ -590,11 +599,13 @@ class Interp(object):
             return v[0] if attr == 'major' else v[1]
         if isinstance(v, type) and v in (dict, str, bytes, int, float, list, tuple, set, frozenset) and hasattr(v, attr):
             return ('pymethod', v, attr)      # dict.fromkeys, str.join, int.from_bytes ... called on determined arguments
-        if isinstance(v, (str, bytes, list, dict, tuple, set, int, float, complex, re.Match, re.Pattern)):
+        if isinstance(v, (str, bytes, list, dict, tuple, set, int, float, complex, re.Match, re.Pattern)) or type(v).__module__ in PURE_VALUE_MODULES:
             try:
                 m = getattr(v, attr)
             except AttributeError:
                 raise _Raise('AttributeError:' + attr)
+            if not callable(m):
+                return m        # data attributes of values: complex.real / .imag, int.numerator, match.string, pattern.pattern ...
             return ('pymethod', v, attr)
         return TOP
 
